@@ -60,17 +60,30 @@ class ImplCoverage:
         hits = self.hits
         real = {}
 
-        def on_line(code, line):
+        def path_of(code):
             fn = code.co_filename
             p = real.get(fn)
             if p is None:
                 p = real[fn] = os.path.realpath(fn)
-            if p in wanted:
-                hits.setdefault(p, set()).add(line)
+            return p
+
+        def on_line(code, line):
+            hits.setdefault(path_of(code), set()).add(line)
+            return m.DISABLE
+
+        def on_start(code, offset):
+            # LINE events are switched on only inside code objects of the anchored files (local events), so everything else — numpy,
+            # networkx, the harness itself — runs uninstrumented; this callback fires once per distinct function
+            if path_of(code) in wanted:
+                try:
+                    m.set_local_events(m.COVERAGE_ID, code, m.events.LINE)
+                except ValueError:
+                    pass
             return m.DISABLE
 
         m.register_callback(m.COVERAGE_ID, m.events.LINE, on_line)
-        m.set_events(m.COVERAGE_ID, m.events.LINE)
+        m.register_callback(m.COVERAGE_ID, m.events.PY_START, on_start)
+        m.set_events(m.COVERAGE_ID, m.events.PY_START)
         self.active = True
 
     def stop(self):
@@ -79,6 +92,7 @@ class ImplCoverage:
         m = self.mon
         m.set_events(m.COVERAGE_ID, 0)
         m.register_callback(m.COVERAGE_ID, m.events.LINE, None)
+        m.register_callback(m.COVERAGE_ID, m.events.PY_START, None)
         m.free_tool_id(m.COVERAGE_ID)
         self.active = False
 
